@@ -278,19 +278,20 @@ class Symex:
         self.unsupported = []
 
     # ------------------------------------------------------------------ entry
-    def run(self, f, this_lp=(('this',),), args=None, path=None, depth=0):
-        """Execute function f; returns list of finished paths."""
+    def run(self, f, this_lp=(('this',),), args=None, path=None, depth=0, share_env=False, want_lvalue=False):
+        """Execute function f; returns list of finished paths.  share_env: the callee sees the caller's locals
+        (lambda with by-reference captures).  want_lvalue: also record the lvalue of each returned expression."""
         self.facts.check_recovery(f)
         p = path.copy() if path else Path()
         saved_env = p.env
-        p.env = {}
+        p.env = dict(saved_env) if share_env else {}
         for i, prm in enumerate(f['params']):
             if args is not None and i < len(args):
                 p.env[prm['d']] = args[i]
             else:
                 rng = type_range(prm['cty'])
                 p.env[prm['d']] = Val(('param', prm['name']), rng)
-        ctx = {'this': this_lp, 'fn': f, 'depth': depth}
+        ctx = {'this': this_lp, 'fn': f, 'depth': depth, 'want_lvalue': want_lvalue}
         if f.get('ctor_inits'):
             for ci in f['ctor_inits']:
                 if ci.get('written') and ci.get('field') and ci['field'] != '<base>':
@@ -309,7 +310,14 @@ class Symex:
             q.returned = True
             res.append(q)
         for q in res:
-            q.env = dict(saved_env) if path else q.env
+            if path and share_env:
+                # keep updates to the caller's locals, drop the callee's own
+                own = set(prm['d'] for prm in f['params'])
+                q.env = {d: v for d, v in q.env.items() if d in saved_env and d not in own}
+                for d, v in saved_env.items():
+                    q.env.setdefault(d, v)
+            else:
+                q.env = dict(saved_env) if path else q.env
         if len(res) > self.MAX_PATHS:
             raise AnalysisBroken('path explosion in %s' % f['sig'])
         return res
@@ -352,6 +360,16 @@ class Symex:
                 p.ret = None
                 return [(p, 'return')]
             res = []
+            if ctx.get('want_lvalue'):
+                for q, lp in self.eval_lvalue(s['e'], p, ctx):
+                    q.ret = Val(('refto', lp)) if lp is not None else None
+                    if lp is None:
+                        for q2, v in self.eval(s['e'], q, ctx):
+                            q2.ret = v
+                            res.append((q2, 'return'))
+                    else:
+                        res.append((q, 'return'))
+                return res
             for q, v in self.eval(s['e'], p, ctx):
                 q.ret = v
                 res.append((q, 'return'))
@@ -922,6 +940,24 @@ class Symex:
             for q, v in self.eval(obj, p, ctx):
                 res.append((q, self._deref(v)))
             return res
+        if (e.get('cty') or '').rstrip().endswith('&') or True:
+            target = self.find_target(e) if (e.get('callee_in_repo') or e.get('callee_lambda_id')) else None
+            if target is not None and target['ret_c'].rstrip().endswith('&') and ctx['depth'] < self.MAX_DEPTH and (e.get('callee') or '') not in self.no_inline:
+                is_lambda = target['kind'] == 'lambda'
+                this_lp = ctx['this'] if (is_lambda or (obj is not None and obj.get('k') == 'this')) else None
+                if obj is not None and this_lp is None and not is_lambda:
+                    lps = self.eval_lvalue(obj, p, ctx)
+                    this_lp = lps[0][1] if len(lps) == 1 else None
+                res = []
+                for q, args in self.eval_args_for(target, e, p, ctx):
+                    for q2 in self.run(target, this_lp=this_lp or (('nothis',),), args=args, path=q, depth=ctx['depth'] + 1,
+                                       share_env=is_lambda, want_lvalue=True):
+                        rv = q2.ret
+                        q2.ret = None
+                        q2.returned = False
+                        lp = rv.term[1] if rv is not None and isinstance(rv.term, tuple) and rv.term[0] == 'refto' else None
+                        res.append((q2, lp))
+                return res
         if e.get('ck') == 'operator' and e.get('op') == '->' and obj is not None:
             res = []
             for q, v in self.eval(obj, p, ctx):
@@ -1140,6 +1176,9 @@ class Symex:
                 return [(p, self.read_lp(p, v.term[1], e))]
             return [(p, self.apply_refine(p, v))]
         if dk == 'global':
+            g = self.facts.globals.get(e['q'])
+            if g is not None and g.get('const_value') is not None:
+                return [(p, Val(C(g['const_value']), (g['const_value'], g['const_value'])))]
             return [(p, Val(('global', e['q']), type_range(e['cty'])))]
         if dk == 'func':
             return [(p, Val(('func', e['q'])))]
@@ -1354,6 +1393,9 @@ class Symex:
         if a.term == b.term and op in ('!=', '<', '>'):
             return Val(C(0), (0, 0), notes)
         ta, tb = a.term, b.term
+        if op in ('==', '!=') and any(isinstance(x, tuple) and x and x[0] in ('find', 'aend', 'abegin', 'vit') for x in (ta, tb)):
+            t = ('iteq', ta, tb)
+            return Val(t if op == '==' else ('not', t), (0, 1), notes)
         if op in ('==', '!=') and repr(ta) > repr(tb):
             ta, tb = tb, ta
         return Val(('cmp', op, ta, tb), (0, 1), notes)
@@ -1462,6 +1504,36 @@ class Symex:
             cur = nxt
         return cur
 
+    def eval_args_for(self, target, e, p, ctx):
+        """like eval_args, but an argument bound to a (non-rvalue) reference parameter is passed as a reference to its lvalue"""
+        cur = [(p, [])]
+        for i, a in enumerate(e['args']):
+            pty = (target['params'][i]['cty'] if i < len(target['params']) else '')
+            byref = pty.rstrip().endswith('&') and not pty.rstrip().endswith('&&')
+            nxt = []
+            for q, l in cur:
+                done = False
+                if byref:
+                    lps = self.eval_lvalue(a, q, ctx)
+                    if len(lps) == 1 and lps[0][1] is not None:
+                        nxt.append((lps[0][0], l + [Val(('refto', lps[0][1]))]))
+                        done = True
+                if not done:
+                    for q2, v in self.eval(a, q, ctx):
+                        nxt.append((q2, l + [v]))
+            cur = nxt
+        return cur
+
+    def find_target(self, e):
+        """the in-repo definition a call resolves to (functions, methods, lambdas)"""
+        if e.get('callee_lambda_id'):
+            c = [x for x in self.facts.by_q.get(e['callee_lambda_id'], []) if x['tmpl'] in ('none', 'inst')]
+            return c[0] if len(c) >= 1 else None
+        if not e.get('callee_in_repo'):
+            return None
+        c = [x for x in self.facts.by_sig.get(e.get('callee_sig'), []) if x['tmpl'] in ('none', 'inst')]
+        return c[0] if len(c) == 1 else None
+
     def ev_call(self, e, p, ctx):
         callee = e.get('callee') or ''
         short = callee.split('::')[-1]
@@ -1537,28 +1609,32 @@ class Symex:
                         self.write_lp(q2, lp, v, e, ctx)
                     res.append((q2, v))
             return res
-        # --- methods of the analysed record, inlined
-        if e.get('callee_in_repo') and ctx['depth'] < self.MAX_DEPTH and callee not in self.no_inline:
-            cands = [c for c in self.facts.by_sig.get(e.get('callee_sig'), []) if c['tmpl'] in ('none', 'inst')]
-            if len(cands) == 1:
-                target = cands[0]
+        # --- functions, methods and lambdas defined in the repository: inlined
+        if (e.get('callee_in_repo') or e.get('callee_lambda_id')) and ctx['depth'] < self.MAX_DEPTH and callee not in self.no_inline:
+            target = self.find_target(e)
+            if target is not None:
+                is_lambda = target['kind'] == 'lambda'
                 this_lp = None
-                if obj is not None:
+                if is_lambda:
+                    this_lp = ctx['this']
+                elif obj is not None:
                     if obj.get('k') == 'this':
                         this_lp = ctx['this']
                     else:
                         lps = self.eval_lvalue(obj, p, ctx)
                         if len(lps) == 1:
                             this_lp = lps[0][1]
-                if obj is None or this_lp is not None:
+                if is_lambda or obj is None or this_lp is not None:
                     res = []
-                    for q, args in self.eval_args(e['args'], p, ctx):
+                    for q, args in self.eval_args_for(target, e, p, ctx):
                         q.effects.append(('inlined', callee, tuple(e.get('loc', ()))))
                         for q2 in self.run(target, this_lp=this_lp or (('nothis',),), args=args, path=q,
-                                           depth=ctx['depth'] + 1):
+                                           depth=ctx['depth'] + 1, share_env=is_lambda):
                             rv = q2.ret if q2.ret is not None else Val(('void',))
                             q2.ret = None
                             q2.returned = False
+                            if isinstance(rv.term, tuple) and rv.term[0] == 'refto':
+                                rv = self.read_lp(q2, rv.term[1], e)
                             res.append((q2, rv))
                     return res
         # --- unknown call: record as an effect, result opaque
